@@ -99,7 +99,7 @@ def run_job(spec):
                 res['obligations'] += 1
                 res['refuted'] += 1
                 if eng.check3() == 'sat':
-                    res['cex'].append(case_of(eng.solver.model(), data, sock, enc, chunks, f"raised {type(path.value).__name__}: {str(path.value)[:60]}"))
+                    res['cex'].append(case_of(eng.model(), data, sock, enc, chunks, f"raised {type(path.value).__name__}: {str(path.value)[:60]}"))
             else:
                 res['inconclusive'].append(f"{spec}: {path.kind} {str(path.value)[:80]}")
             continue
@@ -119,13 +119,13 @@ def run_job(spec):
         if exp is not None and sym.same_bytes(got, exp):
             res['discharged'] += 1
             if len(res['witnesses']) < 2 and eng.check3() == 'sat' and enc == 0:
-                res['witnesses'].append(case_of(eng.solver.model(), data, sock, enc, chunks, "witness"))
+                res['witnesses'].append(case_of(eng.model(), data, sock, enc, chunks, "witness"))
         else:
             res['refuted'] += 1
             why = "delivered bytes differ from the concatenation of the chunk bodies" if exp is not None else \
                   "a chunk body was never handed to the decompressor as one unit"
             if eng.check3() == 'sat':
-                res['cex'].append(case_of(eng.solver.model(), data, sock, enc, chunks, why))
+                res['cex'].append(case_of(eng.model(), data, sock, enc, chunks, why))
         res.count('segmentations')
     res.absorb_engine(eng)
     res['samples'].append({'body': [list(sizes), final, case], 'encoding': ENC[enc], 'max_cuts': maxcuts, 'segmentations': res['counters'].get('segmentations', 0)})
